@@ -382,3 +382,69 @@ def gen_nondyadic(rng):
     if kind == "alpha_shrink":
         cfg["p"]["f"] = rng.choice([F(0), F(1, 2), F(2)])
     return cfg, xs
+
+
+# ---------------------------------------------------------------- replay support
+def unjson(v):
+    """inverse of common.jsonable for the values this family uses ("n/d" strings, "nan"/"inf", lists, dicts)"""
+    if isinstance(v, str):
+        if "/" in v:
+            a, b = v.split("/")
+            return F(int(a), int(b))
+        if v in ("nan", "inf", "-inf"):
+            return float(v)
+        return v
+    if isinstance(v, bool) or v is None:
+        return v
+    if isinstance(v, int):
+        return F(v)
+    if isinstance(v, float):
+        return C.frac(v)
+    if isinstance(v, list):
+        return [unjson(x) for x in v]
+    if isinstance(v, dict):
+        return {k: unjson(x) for k, x in v.items()}
+    return v
+
+
+def cfg_from_json(j):
+    return {"kind": j["kind"], "N": (int(j["N"]) if j["N"] is not None else None), "t": unjson(j["t"]), "u": unjson(j["u"]),
+            "ro": bool(j["ro"]), "p": {k: unjson(v) for k, v in j["p"].items()}}
+
+
+def replay_cases(payload):
+    """(cfg, xs) pairs recorded in a replay file written by this family's checks"""
+    out = []
+
+    def take(d):
+        if isinstance(d, dict) and "cfg" in d and "xs" in d and d["xs"] is not None:
+            out.append((cfg_from_json(d["cfg"]), [unjson(x) for x in d["xs"]]))
+    v = payload.get("violation") or {}
+    take(v.get("input") or {})
+    obs = v.get("observed") or {}
+    if isinstance(obs, dict) and "cfg" in (v.get("input") or {}):
+        for key in ("xs", "ys"):
+            if key in obs:
+                out.append((cfg_from_json(v["input"]["cfg"]), [unjson(x) for x in obs[key]]))
+    for b in payload.get("broken_ties", []) + payload.get("no_longer_checks", []):
+        take(b.get("first_case") or {})
+    return out
+
+
+def run_replay(ctx, res, oracle=None):
+    """Re-run the recorded cases: correspondence on them, plus the module's per-case oracle."""
+    pairs = replay_cases(ctx.replay)
+    cases = [{"cfg": cfg, "xs": xs, "impl": run_impl(cfg, xs), "tag": "replay"} for cfg, xs in pairs]
+    if cases:
+        cr = C.run_corr(ctx.pid, "replay", IMPORTS, "nnm_case", cases, case_lit, "agree_nnm", shard=150, show="show_nnm")
+        res.corr.append(("replayed cases: NonnegMean vs NNM model", cr, case_json))
+    for c in cases:
+        res.evaluations += 1
+        res.nontrivial.add(repr((c["cfg"], c["xs"])))
+        res.nontrivial.add("replay")
+        for what in (oracle(c) if oracle else []) + purity_violation(c):
+            res.oracle_violations.append({"what": f"{c['cfg']['kind']}: {what}", "input": case_json(c),
+                                          "signature": f"{ctx.pid}:{c['cfg']['kind']}:{what}"})
+    res.rule = "replay of the cases recorded in the given replay file"
+    res.samples = [case_json(c) for c in cases[:4]] or [{"note": "no replayable case in the file"}]
+    return cases
